@@ -12,7 +12,7 @@ BUDGET = {"quick": 55, "thorough": 900}
 QUICK_CASES = 1300  # generator items in the quick tier (fixed amount of work; BUDGET is then only a safety cap)
 FLOOR = {"quick": 400, "thorough": 3000}
 TIMEOUT = 90
-REQUIRED_OBS = ["graphs", "tasks_created", "callbacks_added", "callbacks_run", "cancel_points_injected", "waits_checked", "executor_calls", "registry_checks"]
+REQUIRED_OBS = ["graphs", "tasks_created", "callbacks_added", "callbacks_run", "cancel_points_injected", "waits_checked", "executor_calls", "registry_checks", "inner_service_calls"]
 RULE = (
     "task graphs of <= 4 tasks (a service run creating children with task.create; script and native done-callbacks: several per task, "
     "same function twice, removed before completion, raising, sleeping; task.wait; task.cancel of self/other; task.unique; task.executor "
@@ -45,7 +45,12 @@ def cb_sleep(tag):
     task.sleep(1)
     vf.rec("cb_post", tag_cb=tag)
 
-CBS = {"cb": cb, "cb2": cb2, "cb_raise": cb_raise, "cb_sleep": cb_sleep}
+def cb_once(tag):
+    # a one-shot callback: takes itself off the task it is running for
+    vf.rec("cb", tag_cb=tag)
+    task.remove_done_callback(task.current_task(), cb_once)
+
+CBS = {"cb": cb, "cb2": cb2, "cb_raise": cb_raise, "cb_sleep": cb_sleep, "cb_once": cb_once}
 
 def child(kind, dur, cid):
     vf.rec("child_start", cid=cid)
@@ -101,10 +106,19 @@ def interpret(plan, me):
                 vf.rec("executor", r=r)
             except ZeroDivisionError:
                 vf.rec("executor", r="ZeroDivisionError")
+        elif op == "call_inner":
+            r = service.call("pyscript", "inner_svc", x=st[1], blocking=True, return_response=True)
+            vf.rec("inner_ret", r=r, serial=vf.task())
         elif op == "raise":
             vf.rec("main_raise")
             raise IndexError("mainboom")
     vf.rec("main_end")
+
+@service(supports_response="optional")
+def inner_svc(x=None):
+    vf.rec("inner", serial=vf.task(), x=x)
+    task.sleep(0.3)
+    return {"x": x}
 
 @service
 def graph(plan=None):
@@ -141,8 +155,8 @@ def gen_plan(rng):
         k = rng.random()
         ncb += 1
         if k < 0.55:
-            plan.append(["cb_add", tgt, rng.choice(["cb", "cb", "cb2", "cb_raise", "cb_sleep"]), f"t{ncb}", [ncb] if rng.random() < 0.5 else [], {"kx": ncb} if rng.random() < 0.3 else {}])
-            if plan[-1][2] in ("cb_raise", "cb_sleep"):
+            plan.append(["cb_add", tgt, rng.choice(["cb", "cb", "cb2", "cb_raise", "cb_sleep", "cb_once"]), f"t{ncb}", [ncb] if rng.random() < 0.5 else [], {"kx": ncb} if rng.random() < 0.3 else {}])
+            if plan[-1][2] in ("cb_raise", "cb_sleep", "cb_once"):
                 plan[-1][4], plan[-1][5] = [], {}
         elif k < 0.75:
             plan.append(["cb_add_native", tgt, f"n{ncb}"])
@@ -165,8 +179,12 @@ def gen_plan(rng):
         elif k < 0.8:
             tail.append(["unique", "u2"])
             tail.append(["unique", "u1"])
-        elif k < 0.92:
+        elif k < 0.88:
             tail.append(["executor", rng.choice([3, 0])])
+            suspended = True
+        elif k < 0.94:
+            # a blocking call of a pyscript service from this run: the service runs as a task of its own
+            tail.append(["call_inner", rng.randint(1, 99)])
             suspended = True
         else:
             tail.append(rng.choice([["raise"], ["cancel_self"]]))
@@ -308,13 +326,13 @@ def run_case(case):
 def check_execution(case, w, reg, native, state, cancel_at):
     plan = case["plan"]
     viol = []
-    obs = {"callbacks_added": 0, "callbacks_run": 0, "waits_checked": 0, "executor_calls": 0, "tasks_created": 0, "registry_checks": 1}
+    obs = {"callbacks_added": 0, "callbacks_run": 0, "waits_checked": 0, "executor_calls": 0, "tasks_created": 0, "registry_checks": 1, "inner_service_calls": 0}
     recs = w.rec
     fired = state["fired"]
     victim = case["victim"]
     # all registrations come before the first suspending step, so they all happened unless the main task was cut before
     # even starting (not possible: injection needs a suspension of the victim)
-    first_susp = next((i for i, st in enumerate(plan) if st[0] in ("wait", "sleep", "unique", "executor", "cancel", "cancel_self", "raise")), len(plan))
+    first_susp = next((i for i, st in enumerate(plan) if st[0] in ("wait", "sleep", "unique", "executor", "cancel", "cancel_self", "raise", "call_inner")), len(plan))
     # with the main task as victim the injected cancel can land between registration steps only if those suspend: they do not
     expected = {}
     kinds = {}
@@ -345,6 +363,17 @@ def check_execution(case, w, reg, native, state, cancel_at):
             viol.append({"mech": mech, "msg": f"callback {fn}({e['tag']}) registered on task {tgt} ran {len(got)} times; plan {plan}"})
         elif fn != "native" and fn in ("cb", "cb2") and (got[0]["a"] != e["a"] or got[0]["k"] != e["k"]):
             viol.append({"mech": "done_callback_wrong_args", "msg": f"callback {fn}({e['tag']}) got a={got[0]['a']} k={got[0]['k']} expected {e}"})
+    # a service called by the run is a task of its own: it neither shares the caller's task nor ends the caller's bookkeeping
+    main_serial = next((r["serial"] for r in recs if r["tag"] == "main_start"), None)
+    for r in recs:
+        if r["tag"] == "inner":
+            obs["inner_service_calls"] = obs.get("inner_service_calls", 0) + 1
+            if r["serial"] == main_serial:
+                viol.append({"mech": "service_call_shares_callers_task", "msg": f"the service called from the run executed in the caller's task {main_serial}; plan {plan}"})
+        if r["tag"] == "inner_ret":
+            early = [c for c in recs if c["tag"] == "cb" and c["seq"] < r["seq"] and any(k[0] == "me" and e["tag"] == c["tag_cb"] for k, e in expected.items())]
+            if early:
+                viol.append({"mech": "done_callback_ran_before_task_ended", "msg": f"done-callbacks of the calling run {[c['tag_cb'] for c in early]} ran before the run continued after its service call; plan {plan}"})
     if runs:
         viol.append({"mech": "removed_or_unknown_callback_ran", "msg": f"callbacks ran that were not registered (or were removed): {sorted(runs)}; plan {plan}"})
     # children: independent of the main task and of each other
